@@ -39,9 +39,13 @@ COMPONENTS = {
 }
 
 
+VERIF_DIR = os.path.dirname(os.path.dirname(os.path.abspath(__file__)))
+
+
 def env():
     e = dict(os.environ)
     e["CARGO_NET_OFFLINE"] = "true"
+    e["TZSIM_CORPUS"] = os.path.join(VERIF_DIR, "corpus")
     e.pop("RUSTFLAGS", None)  # .cargo/config.toml carries --cfg tz_rs_verif
     return e
 
